@@ -117,16 +117,36 @@ const (
 
 var negZero = func() *big.Float { return new(big.Float).SetPrec(512).Neg(new(big.Float).SetPrec(512)) }
 
-func numVal(r *big.Rat, computed bool) Res {
+// numVal builds a number result.  negZero: a float implementation following the
+// IEEE sign rules would produce a negative zero here (0 * -5, -(0), ...).  The
+// language has a single zero, so nothing is wrong with either sign, but the sign
+// becomes visible when the zero is converted to a string ("-0"); such a zero is
+// marked so that its string conversion is treated as not pinned down.
+func numVal(r *big.Rat, negZ bool) Res {
 	if !ExactRat(r) {
 		return unspecR("number-not-exact")
 	}
-	if r.Sign() == 0 && computed {
-		// the sign of a computed zero is an artifact of the float implementation;
-		// mark it so that converting it to a string is treated as not pinned down.
+	if r.Sign() == 0 && negZ {
 		return okR(cty.NumberVal(negZero()))
 	}
 	return okR(RatToCty(r))
+}
+
+// signOf: sign bit of an operand as an IEEE-style implementation would see it
+func signOf(v cty.Value, r *big.Rat) bool {
+	if r.Sign() != 0 {
+		return r.Sign() < 0
+	}
+	if v.IsNull() {
+		return false
+	}
+	switch v.Type() {
+	case cty.Number:
+		return v.AsBigFloat().Signbit()
+	case cty.String:
+		return strings.HasPrefix(v.AsString(), "-")
+	}
+	return false
 }
 
 func ratOf(v cty.Value) *big.Rat {
@@ -357,7 +377,7 @@ func (e *Ev) evalUn(n *Node, sc *Scope) Res {
 		if c != cOK {
 			return csRes(c, "unary-minus:operand-not-number")
 		}
-		return numVal(new(big.Rat).Neg(r), true).withErrOK(a.ErrOK)
+		return numVal(new(big.Rat).Neg(r), !signOf(a.V, r)).withErrOK(a.ErrOK)
 	case "!":
 		b, c := toBool(a.V)
 		if c != cOK {
@@ -431,6 +451,8 @@ func (e *Ev) evalBin(n *Node, sc *Scope) Res {
 	if c1 != cOK || c2 != cOK {
 		return unspecR("arith:operand-conversion")
 	}
+	sa, sb := signOf(l.V, a), signOf(r.V, b)
+	bothZero := a.Sign() == 0 && b.Sign() == 0
 	switch n.Op {
 	case "<":
 		return okR(cty.BoolVal(a.Cmp(b) < 0)).withErrOK(eo)
@@ -441,16 +463,16 @@ func (e *Ev) evalBin(n *Node, sc *Scope) Res {
 	case ">=":
 		return okR(cty.BoolVal(a.Cmp(b) >= 0)).withErrOK(eo)
 	case "+":
-		return numVal(new(big.Rat).Add(a, b), true).withErrOK(eo)
+		return numVal(new(big.Rat).Add(a, b), bothZero && sa && sb).withErrOK(eo)
 	case "-":
-		return numVal(new(big.Rat).Sub(a, b), true).withErrOK(eo)
+		return numVal(new(big.Rat).Sub(a, b), bothZero && sa && !sb).withErrOK(eo)
 	case "*":
-		return numVal(new(big.Rat).Mul(a, b), true).withErrOK(eo)
+		return numVal(new(big.Rat).Mul(a, b), sa != sb).withErrOK(eo)
 	case "/":
 		if b.Sign() == 0 {
 			return unspecR("division-by-zero")
 		}
-		return numVal(new(big.Rat).Quo(a, b), true).withErrOK(eo)
+		return numVal(new(big.Rat).Quo(a, b), sa != sb).withErrOK(eo)
 	case "%":
 		// "remainder" is pinned down only for a non-negative whole dividend and a
 		// positive whole divisor
@@ -458,7 +480,7 @@ func (e *Ev) evalBin(n *Node, sc *Scope) Res {
 			return unspecR("modulo-outside-naturals")
 		}
 		m := new(big.Int).Mod(a.Num(), b.Num())
-		return numVal(new(big.Rat).SetInt(m), true).withErrOK(eo)
+		return numVal(new(big.Rat).SetInt(m), sa).withErrOK(eo)
 	}
 	return unspecR("bad-binary-op")
 }
